@@ -38,7 +38,12 @@ ASSUMPTIONS = [
     'remove_layer of a dataset\'s own layer (its subsets\' layers stay). For datasets that are not given, the subset layers need not be complete but every one of them must be a current '
     'subset of a dataset in the collection. Removing the layer of a live subset of a GIVEN dataset by hand (remove_subset / remove_layer(subset)) is an explicit request not to mirror, '
     'and add_subset of a subset whose dataset is not in the collection is API misuse (add_data raises for such a dataset): both outside the statement',
-    'collection operations inside hub.delay_callbacks() blocks are used for the pickers only (the collection itself opens such blocks for subset groups; nesting is C07)',
+    'delay blocks around viewer histories are an extension beyond the property\'s quantifier (it names them for the pickers): '
+    '(a) delay_callback(viewer.state, "layers") blocks around viewer and collection operations are modelled and compared step by step, the invariants are evaluated when the '
+    'block is left; inside one block no dataset is both removed from and added to the viewer (either order) - the unchanged code then leaves a given dataset without layer, '
+    'or an artist without layer state (Coq: viewer_blocks_refuted; both reproduced) - this user-level misuse of an internal callback property is documented, not reported; '
+    '(b) hub.delay_callbacks() blocks around collection operations are exercised oracle-only (the deferral of the subset groups\' own handlers is C06/C07 territory), '
+    'invariants evaluated when the block is left; viewer operations are not put inside hub blocks',
     'explicit selections are assignments of a value (accepted when it is one of the choices, ValueError otherwise); assigning None by hand is echo API, outside the statement',
     'inside an open hub delay block the picker is compared with the model (queued messages) but "choices = filtered attributes" is evaluated when the block closes',
     'viewer save/restore goes through a session (Application subclass that also saves its viewers, as glue-qt does); histogram and profile viewers are included only when '
@@ -908,7 +913,7 @@ def stream_viewer_blocks(R, fixed):
             for syms in itertools.product(inblock, repeat=ln):
                 if not block_ok(syms):
                     continue
-                for tr in trailing:
+                for tr in (trailing if ln < 3 else trailing[:1] + trailing[3:]):
                     ops = resolve_symbols(prefix, tuple(syms) + tr)
                     if ops is None:
                         continue
@@ -981,7 +986,19 @@ def random_history(rng, nviewers, length, with_restore, ndata=3, lone=False, blo
             vi = rng.randrange(nviewers)
             ops.append(('lbegin', vi))
             gone, added = set(), set()
-            for _k in range(rng.randrange(2, 4)):
+            if shown[vi] and (in_dc - shown[vi]) and rng.random() < 0.6:
+                # the dataset swap: one dataset out, another one in, inside the same block
+                a = rng.choice(sorted(shown[vi]))
+                b = rng.choice(sorted(in_dc - shown[vi]))
+                if rng.random() < 0.5:
+                    ops += [('rmdata', vi, a), ('add', vi, b)]
+                else:
+                    ops += [('add', vi, b), ('rmdata', vi, a)]
+                shown[vi].discard(a)
+                shown[vi].add(b)
+                gone.add(a)
+                added.add(b)
+            for _k in range(rng.randrange(0 if gone else 2, 3)):
                 q = rng.random()
                 if q < 0.35 and (shown[vi] - added):
                     a = rng.choice(sorted(shown[vi] - added))
@@ -1123,7 +1140,7 @@ def stream_viewer_mpl(R, fixed):
     t0 = time.time()
     restorable = probe_restorable(all_kinds)
     R.note('viewer kinds that restore headlessly: %s' % restorable)
-    budget = R.pick(30.0, 170.0)
+    budget = R.pick(30.0, 130.0)
     batch = []
     i = 0
     while time.time() - t0 < budget and i < R.pick(80, 600):
